@@ -221,10 +221,12 @@ def _to_int(
         # Right-shift to convert left-aligned bytes to right-aligned int
         # num_zero_bits = (32 - len) * 8
         num_zero_bits = b.mul(b.sub(IRLiteral(32), length), IRLiteral(8))
+        val = b.shr(num_zero_bits, data)
         if out_t.is_signed:
-            val = b.sar(num_zero_bits, data)
-        else:
-            val = b.shr(num_zero_bits, data)
+            # sign-extend from the most significant byte of the bytestring
+            # (sar by 256 for an empty bytestring would propagate the sign
+            # bit of the stale word behind the length)
+            val = b.signextend(b.sub(length, IRLiteral(1)), val)
         # Clamp if bytes could exceed output range
         if in_t.maxlen * 8 > out_t.bits:
             val = _int_clamp(val, out_t, ctx)
@@ -303,7 +305,9 @@ def _to_decimal(
         data_ptr = b.add(val, IRLiteral(32))
         data = b.mload(data_ptr)
         num_zero_bits = b.mul(b.sub(IRLiteral(32), length), IRLiteral(8))
-        val = b.sar(num_zero_bits, data)
+        # zero-extend, then sign-extend from the most significant byte
+        # (see _to_int)
+        val = b.signextend(b.sub(length, IRLiteral(1)), b.shr(num_zero_bits, data))
         # Clamp to decimal bounds if needed
         if in_t.maxlen * 8 > 168:  # decimal is 168 bits
             val = _clamp_basetype(val, out_t, ctx)
